@@ -1,7 +1,7 @@
 (** Lemmas for C03 (Model/GenCall.v). *)
 From Coq Require Import ZArith List Bool Lia.
-From FV Require Import Base.Res Base.Bytes Base.GoSem Model.Headers Model.Receivers Model.ThriftBin Model.GenCall
-     Proofs.BytesProofs Proofs.HeadersProofs Proofs.ThriftBinProofs Proofs.ThriftBinGoProofs.
+From FV Require Import Base.Res Base.Bytes Base.GoSem Model.Headers Model.Receivers Model.ThriftBin Model.ThriftCompact Model.GenCall
+     Proofs.BytesProofs Proofs.HeadersProofs Proofs.ThriftBinProofs Proofs.ThriftBinGoProofs Proofs.ThriftCompactProofs.
 Import ListNotations.
 Open Scope Z_scope.
 
@@ -85,6 +85,28 @@ Proof.
   rewrite skipn_all2 by (rewrite be_n_length; lia). reflexivity.
 Qed.
 
+(** * What the call needs of a protocol: the four round trips *)
+Record codec_ok (cd : codec) : Prop := mkCodecOk {
+  ok_msg : forall nm typ seq rest,
+    0 <= typ < 8 -> zlen nm < 2147483648 -> in_range 4 seq ->
+    cd_msg_dec cd (cd_msg_enc cd nm typ seq ++ rest) = Ok (nm, typ, seq, rest);
+  ok_exc : forall kind text rest fuel,
+    (3 <= fuel)%nat -> zlen text < 2147483648 -> in_range 4 kind ->
+    cd_exc_dec cd fuel (cd_exc_enc cd kind text ++ rest) = Ok (text, kind, rest);
+  ok_struct : forall e t v rest,
+    gwf e t v ->
+    exists b fuel0, cd_write cd e t v = Ok b /\
+                    forall fuel, (fuel0 <= fuel)%nat -> cd_read cd fuel e t (b ++ rest) = Ok (v, rest);
+  ok_skip : forall e t args,
+    gwf e t (VStruct args) ->
+    (forall w, to_wire e t (VStruct args) = Ok w -> wdepth w <= 64) ->
+    exists b fuel0, cd_write cd e t (VStruct args) = Ok b /\
+                    forall fuel, (fuel0 <= fuel)%nat -> cd_skip_struct cd fuel b = Ok [] }.
+
+Section WithCodec.
+Variable cd : codec.
+Hypothesis cd_ok : codec_ok cd.
+
 (** * Server: request header, dispatch, argument decoding *)
 
 Lemma read_request_header_marshal hdrs opid rest :
@@ -97,7 +119,7 @@ Qed.
 
 Definition wire_type (m : method) : Z := if m_oneway m then T_ONEWAY else T_CALL.
 
-Lemma wire_type_range m : 0 <= wire_type m < 256.
+Lemma wire_type_range m : 0 <= wire_type m < 8.
 Proof. unfold wire_type, T_ONEWAY, T_CALL. destruct (m_oneway m); lia. Qed.
 
 (** the request the generated client method hands to the transport, and what the generated
@@ -108,20 +130,20 @@ Lemma server_on_request e pm h m hdrs opid args :
   zlen (m_wire m) < 2147483648 ->
   gwf e (TRef (m_args m)) (VStruct args) ->
   exists req fuel0,
-    client_prepare e m hdrs args = Ok req /\
+    client_prepare_c cd e m hdrs args = Ok req /\
     forall fuel, (fuel0 <= fuel)%nat ->
-      server_process fuel e pm h req =
-      do o <- respond e (response_headers (to_map hdrs) opid) m (h (m_wire m) args);
+      server_process_c cd fuel e pm h req =
+      do o <- respond_c cd e (response_headers (to_map hdrs) opid) m (h (m_wire m) args);
       Ok (o, [(m_wire m, args)]).
 Proof.
   intros Hpm Hs Ho Hn Hwf.
-  destruct (write_read_roundtrip e (TRef (m_args m)) (VStruct args) [] Hwf) as (b & fuel0 & Hw & Hr).
-  exists (marshal hdrs ++ msg_begin_enc (m_wire m) (wire_type m) 0 ++ b), fuel0. split.
-  - unfold client_prepare. rewrite Hw. reflexivity.
-  - intros fuel Hf. unfold server_process.
+  destruct (ok_struct cd cd_ok e (TRef (m_args m)) (VStruct args) [] Hwf) as (b & fuel0 & Hw & Hr).
+  exists (marshal hdrs ++ cd_msg_enc cd (m_wire m) (wire_type m) 0 ++ b), fuel0. split.
+  - unfold client_prepare_c. rewrite Hw. reflexivity.
+  - intros fuel Hf. unfold server_process_c.
     rewrite (read_request_header_marshal hdrs opid) by assumption. cbn [bind].
-    rewrite msg_begin_roundtrip; [|apply wire_type_range|assumption|apply in_range_4; lia].
-    cbn [bind]. rewrite Hpm. unfold method_process.
+    rewrite (ok_msg cd cd_ok); [|apply wire_type_range|assumption|apply in_range_4; lia].
+    cbn [bind]. rewrite Hpm. unfold method_process_c.
     specialize (Hr fuel Hf). rewrite app_nil_r in Hr. rewrite Hr. reflexivity.
 Qed.
 
@@ -189,15 +211,15 @@ Definition outcome_ok (e : env) (m : method) (o : houtcome) : Prop :=
 Lemma exception_reply_read e m rh kind text fuel :
   header_size rh < 2147483648 -> zlen (m_wire m) < 2147483648 ->
   in_range 4 kind -> zlen text < 2147483648 -> (3 <= fuel)%nat ->
-  process_reply fuel e m (exception_msg rh (m_wire m) kind text) =
+  process_reply_c cd fuel e m (exception_msg_c cd rh (m_wire m) kind text) =
   if kind =? AE_RESPONSE_TOO_LARGE then CTransport TE_RESPONSE_TOO_LARGE text else CAppExc kind text.
 Proof.
-  intros Hrh Hn Hk Ht Hf. unfold process_reply, exception_msg.
+  intros Hrh Hn Hk Ht Hf. unfold process_reply_c, exception_msg_c.
   rewrite stream_roundtrip by assumption.
-  rewrite msg_begin_roundtrip; [|unfold T_EXCEPTION; lia|assumption|apply in_range_4; lia].
+  rewrite (ok_msg cd cd_ok); [|unfold T_EXCEPTION; lia|assumption|apply in_range_4; lia].
   rewrite bytes_eqb_refl. cbn [negb]. change (T_EXCEPTION =? T_EXCEPTION) with true. cbv iota.
-  rewrite <- (app_nil_r (appexc_enc kind text)).
-  rewrite appexc_roundtrip by assumption. reflexivity.
+  rewrite <- (app_nil_r (cd_exc_enc cd kind text)).
+  rewrite (ok_exc cd cd_ok) by assumption. reflexivity.
 Qed.
 
 (** two-way methods: the reply the processor writes is read by the client as the handler's outcome *)
@@ -206,38 +228,38 @@ Lemma respond_then_reply e m rh o :
   header_size rh < 2147483648 -> zlen (m_wire m) < 2147483648 ->
   outcome_ok e m o ->
   exists reply fuel0,
-    respond e rh m o = Ok (Some reply) /\
+    respond_c cd e rh m o = Ok (Some reply) /\
     (exists payload, reply = marshal rh ++ payload) /\
-    forall fuel, (fuel0 <= fuel)%nat -> process_reply fuel e m reply = map_outcome e m o.
+    forall fuel, (fuel0 <= fuel)%nat -> process_reply_c cd fuel e m reply = map_outcome e m o.
 Proof.
   intros Hw Hrh Hn Hok.
   assert (Hexc : forall kind text, in_range 4 kind -> zlen text < 2147483648 ->
             exists reply fuel0,
-              Ok (Some (exception_msg rh (m_wire m) kind text)) = Ok (Some reply) /\
+              Ok (Some (exception_msg_c cd rh (m_wire m) kind text)) = Ok (Some reply) /\
               (exists payload, reply = marshal rh ++ payload) /\
-              forall fuel, (fuel0 <= fuel)%nat -> process_reply fuel e m reply =
+              forall fuel, (fuel0 <= fuel)%nat -> process_reply_c cd fuel e m reply =
                 if kind =? AE_RESPONSE_TOO_LARGE then CTransport TE_RESPONSE_TOO_LARGE text else CAppExc kind text).
-  { intros kind text Hk Ht. exists (exception_msg rh (m_wire m) kind text), 3%nat.
+  { intros kind text Hk Ht. exists (exception_msg_c cd rh (m_wire m) kind text), 3%nat.
     split; [reflexivity|]. split; [eexists; reflexivity|].
     intros fuel Hf. apply exception_reply_read; assumption. }
   assert (Hrep : forall slots, gwf e (TRef (m_result m)) (VStruct slots) ->
             exists reply fuel0,
-              (do b <- gwrite e (TRef (m_result m)) (VStruct slots);
-               Ok (Some (marshal rh ++ msg_begin_enc (m_wire m) T_REPLY 0 ++ b))) = Ok (Some reply) /\
+              (do b <- cd_write cd e (TRef (m_result m)) (VStruct slots);
+               Ok (Some (marshal rh ++ cd_msg_enc cd (m_wire m) T_REPLY 0 ++ b))) = Ok (Some reply) /\
               (exists payload, reply = marshal rh ++ payload) /\
-              forall fuel, (fuel0 <= fuel)%nat -> process_reply fuel e m reply = result_outcome e m slots).
+              forall fuel, (fuel0 <= fuel)%nat -> process_reply_c cd fuel e m reply = result_outcome e m slots).
   { intros slots Hwf.
-    destruct (write_read_roundtrip e (TRef (m_result m)) (VStruct slots) [] Hwf) as (b & fuel0 & Hwr & Hr).
-    exists (marshal rh ++ msg_begin_enc (m_wire m) T_REPLY 0 ++ b), fuel0.
+    destruct (ok_struct cd cd_ok e (TRef (m_result m)) (VStruct slots) [] Hwf) as (b & fuel0 & Hwr & Hr).
+    exists (marshal rh ++ cd_msg_enc cd (m_wire m) T_REPLY 0 ++ b), fuel0.
     rewrite Hwr. split; [reflexivity|]. split; [eexists; reflexivity|].
-    intros fuel Hf. unfold process_reply.
+    intros fuel Hf. unfold process_reply_c.
     rewrite stream_roundtrip by assumption.
-    rewrite msg_begin_roundtrip; [|unfold T_REPLY; lia|assumption|apply in_range_4; lia].
+    rewrite (ok_msg cd cd_ok); [|unfold T_REPLY; lia|assumption|apply in_range_4; lia].
     rewrite bytes_eqb_refl. cbn [negb]. change (T_REPLY =? T_EXCEPTION) with false.
     change (T_REPLY =? T_REPLY) with true. cbn [negb]. cbv iota.
     specialize (Hr fuel Hf). rewrite app_nil_r in Hr. rewrite Hr. reflexivity. }
   assert (H6 : in_range 4 AE_INTERNAL_ERROR) by (apply in_range_4; unfold AE_INTERNAL_ERROR; lia).
-  destruct o as [ov|n v text|kind text|text]; unfold respond, map_outcome; cbn [outcome_ok] in Hok.
+  destruct o as [ov|n v text|kind text|text]; unfold respond_c, map_outcome; cbn [outcome_ok] in Hok.
   - rewrite Hw. rewrite <- result_outcome_ret. apply Hrep. apply Hok. exact Hw.
   - rewrite Hw in *. destruct (find_throw e n (m_throws m)) as [f|] eqn:Ef.
     + destruct Hok as [Hwf Hnd]. rewrite <- (result_outcome_thrown e m n v f Hnd Ef). apply Hrep. exact Hwf.
@@ -290,11 +312,11 @@ Theorem call_faithful e pm h registry m hdrs opid args :
   outcome_ok e m (h (m_wire m) args) ->
   (registry = true ->
    (exists n, parse_uint64 opid = Some n) /\
-   forall reply, respond e (response_headers (to_map hdrs) opid) m (h (m_wire m) args) = Ok (Some reply) ->
+   forall reply, respond_c cd e (response_headers (to_map hdrs) opid) m (h (m_wire m) args) = Ok (Some reply) ->
                  zlen reply < 2147483648) ->
   exists fuel0, forall fuel, (fuel0 <= fuel)%nat ->
     exists reply,
-      rpc_call fuel e pm h registry m hdrs args =
+      rpc_call_c cd fuel e pm h registry m hdrs args =
       Ok (map_outcome e m (h (m_wire m) args), [(m_wire m, args)], Some reply).
 Proof.
   intros Hpm Hw Hs Ho Hrh Hn Hwf Hok Hreg.
@@ -302,7 +324,7 @@ Proof.
   destruct (respond_then_reply e m (response_headers (to_map hdrs) opid) (h (m_wire m) args) Hw Hrh Hn Hok)
     as (reply & f2 & Hresp & (payload & Hshape) & Hcli).
   exists (f1 + f2)%nat. intros fuel Hf. exists reply.
-  unfold rpc_call. rewrite Hreq. cbn [bind]. rewrite unframe_frame. cbn [bind].
+  unfold rpc_call_c. rewrite Hreq. cbn [bind]. rewrite unframe_frame. cbn [bind].
   rewrite Hsrv by lia. rewrite Hresp. cbn [bind]. rewrite Hw.
   assert (Hreach : reply_reaches_caller registry hdrs reply = true).
   { destruct registry; [|reflexivity].
@@ -324,18 +346,18 @@ Theorem oneway_no_reply e pm h registry m hdrs opid args :
   gwf e (TRef (m_args m)) (VStruct args) ->
   exists fuel0, forall fuel, (fuel0 <= fuel)%nat ->
     exists out,
-      rpc_call fuel e pm h registry m hdrs args = Ok (CRet None, [(m_wire m, args)], out) /\
+      rpc_call_c cd fuel e pm h registry m hdrs args = Ok (CRet None, [(m_wire m, args)], out) /\
       (forall ov, h (m_wire m) args = HRet ov -> out = None).
 Proof.
   intros Hpm Hw Hs Ho Hn Hwf.
   destruct (server_on_request e pm h m hdrs opid args Hpm Hs Ho Hn Hwf) as (req & f1 & Hreq & Hsrv).
   exists f1. intros fuel Hf.
-  assert (Hresp : exists out, respond e (response_headers (to_map hdrs) opid) m (h (m_wire m) args) = Ok out /\
+  assert (Hresp : exists out, respond_c cd e (response_headers (to_map hdrs) opid) m (h (m_wire m) args) = Ok out /\
                               (forall ov, h (m_wire m) args = HRet ov -> out = None)).
-  { unfold respond. rewrite Hw. destruct (h (m_wire m) args) as [ov|n v text|kind text|text];
+  { unfold respond_c. rewrite Hw. destruct (h (m_wire m) args) as [ov|n v text|kind text|text];
       eexists; (split; [reflexivity|]); intros ov' H; try discriminate H; reflexivity. }
   destruct Hresp as (out & Hresp & Hnone). exists out. split; [|exact Hnone].
-  unfold rpc_call. rewrite Hreq. cbn [bind]. rewrite unframe_frame. cbn [bind].
+  unfold rpc_call_c. rewrite Hreq. cbn [bind]. rewrite unframe_frame. cbn [bind].
   rewrite Hsrv by lia. rewrite Hresp. cbn [bind]. rewrite Hw. reflexivity.
 Qed.
 
@@ -350,28 +372,22 @@ Theorem unknown_method_rejected e pm h m hdrs opid args :
   (forall w, to_wire e (TRef (m_args m)) (VStruct args) = Ok w -> wdepth w <= 64) ->
   exists fuel0, forall fuel, (fuel0 <= fuel)%nat ->
     exists reply,
-      rpc_call fuel e pm h false m hdrs args =
+      rpc_call_c cd fuel e pm h false m hdrs args =
       Ok (CAppExc AE_UNKNOWN_METHOD (s_unknown_function ++ m_wire m), [], Some reply).
 Proof.
   intros Hpm Hw Hs Ho Hrh Hn Hwf Hdepth.
-  destruct (go_struct_roundtrip e (TRef (m_args m)) (VStruct args) Hwf) as (w & Htw & Hwwt & _).
+  destruct (ok_skip cd cd_ok e (TRef (m_args m)) args Hwf Hdepth) as (b & f0 & Hwr & Hsk).
   assert (Hnm : zlen (m_wire m) < 2147483648).
   { rewrite zlen_app in Hn. pose proof (zlen_nonneg s_unknown_function). lia. }
-  exists (wsize w + 3)%nat. intros fuel Hf.
-  eexists. unfold rpc_call, client_prepare, gwrite. rewrite Htw. cbn [bind].
-  rewrite unframe_frame. cbn [bind]. unfold server_process.
+  exists (f0 + 3)%nat. intros fuel Hf.
+  eexists. unfold rpc_call_c, client_prepare_c. rewrite Hwr. cbn [bind].
+  rewrite unframe_frame. cbn [bind]. unfold server_process_c.
   rewrite (read_request_header_marshal hdrs opid) by assumption. cbn [bind].
-  rewrite msg_begin_roundtrip; [|rewrite Hw; unfold T_CALL; lia|assumption|apply in_range_4; lia].
+  rewrite (ok_msg cd cd_ok); [|rewrite Hw; unfold T_CALL; lia|assumption|apply in_range_4; lia].
   cbn [bind]. rewrite Hpm.
-  assert (Hsk : skip_default fuel 12 (wenc e (TRef (m_args m)) w) = Ok []).
-  { unfold skip_default. rewrite <- (app_nil_r (wenc e (TRef (m_args m)) w)).
-    replace 12 with (wtype e (TRef (m_args m))).
-    - apply skip_wenc; [assumption|lia|apply Hdepth; assumption].
-    - inversion Hwf; subst. unfold wtype.
-      match goal with H : shape_of _ _ = SStruct _ _ |- _ => rewrite H end. reflexivity. }
-  rewrite Hsk. cbn [bind]. rewrite Hw.
+  rewrite Hsk by lia. cbn [bind]. rewrite Hw.
   change (reply_reaches_caller false hdrs ?x) with true. cbv iota.
-  fold (exception_msg (response_headers (to_map hdrs) opid) (m_wire m) AE_UNKNOWN_METHOD (s_unknown_function ++ m_wire m)).
+  fold (exception_msg_c cd (response_headers (to_map hdrs) opid) (m_wire m) AE_UNKNOWN_METHOD (s_unknown_function ++ m_wire m)).
   rewrite exception_reply_read; [|assumption|assumption|apply in_range_4; unfold AE_UNKNOWN_METHOD; lia|assumption|lia].
   reflexivity.
 Qed.
@@ -379,12 +395,12 @@ Qed.
 (** the caller rejects a reply under another method name or of a type that is neither REPLY nor
     EXCEPTION, whatever follows *)
 Theorem wrong_reply_rejected e m fuel reply hs r1 nm typ seq r2 :
-  read_header reply = Ok (hs, r1) -> msg_begin_dec r1 = Ok (nm, typ, seq, r2) ->
-  (nm <> m_wire m -> process_reply fuel e m reply = CAppExc AE_WRONG_METHOD_NAME (m_wire m ++ s_wrong_method)) /\
+  read_header reply = Ok (hs, r1) -> cd_msg_dec cd r1 = Ok (nm, typ, seq, r2) ->
+  (nm <> m_wire m -> process_reply_c cd fuel e m reply = CAppExc AE_WRONG_METHOD_NAME (m_wire m ++ s_wrong_method)) /\
   (nm = m_wire m -> typ <> T_EXCEPTION -> typ <> T_REPLY ->
-   process_reply fuel e m reply = CAppExc AE_INVALID_MESSAGE_TYPE (m_wire m ++ s_invalid_type)).
+   process_reply_c cd fuel e m reply = CAppExc AE_INVALID_MESSAGE_TYPE (m_wire m ++ s_invalid_type)).
 Proof.
-  intros Hh Hm. unfold process_reply. rewrite Hh, Hm. split.
+  intros Hh Hm. unfold process_reply_c. rewrite Hh, Hm. split.
   - intros Hne. destruct (ThriftBin.bytes_eqb nm (m_wire m)) eqn:E; [|reflexivity].
     apply bytes_eqb_eq in E. contradiction.
   - intros -> H3 H2. rewrite bytes_eqb_refl. cbn [negb].
@@ -448,12 +464,126 @@ Corollary service_call_faithful fuel_s ss s go e h registry m hdrs opid args :
   outcome_ok e m (h (m_wire m) args) ->
   (registry = true ->
    (exists n, parse_uint64 opid = Some n) /\
-   forall reply, respond e (response_headers (to_map hdrs) opid) m (h (m_wire m) args) = Ok (Some reply) ->
+   forall reply, respond_c cd e (response_headers (to_map hdrs) opid) m (h (m_wire m) args) = Ok (Some reply) ->
                  zlen reply < 2147483648) ->
   exists fuel0, forall fuel, (fuel0 <= fuel)%nat ->
     exists reply,
-      rpc_call fuel e (proc_entries fuel_s ss s) h registry m hdrs args =
+      rpc_call_c cd fuel e (proc_entries fuel_s ss s) h registry m hdrs args =
       Ok (map_outcome e m (h (m_wire m) args), [(m_wire m, args)], Some reply).
 Proof.
   intros Hnd Hc. apply call_faithful. apply (inherited_served fuel_s ss s go m Hnd Hc).
+Qed.
+
+End WithCodec.
+
+(** * TBinaryProtocol satisfies the laws *)
+Theorem bin_codec_ok : codec_ok bin_codec.
+Proof.
+  constructor; cbn [bin_codec cd_msg_enc cd_msg_dec cd_exc_enc cd_exc_dec cd_write cd_read cd_skip_struct].
+  - intros nm typ seq rest Ht Hn Hs. apply msg_begin_roundtrip; [lia|assumption|assumption].
+  - intros kind text rest fuel. apply appexc_roundtrip.
+  - intros e t v rest. apply write_read_roundtrip.
+  - intros e t args Hwf Hdepth.
+    destruct (go_struct_roundtrip e t (VStruct args) Hwf) as (w & Htw & Hwwt & _).
+    exists (wenc e t w), (wsize w). split; [unfold gwrite; rewrite Htw; reflexivity|].
+    intros fuel Hf. unfold skip_default. rewrite <- (app_nil_r (wenc e t w)).
+    replace 12 with (wtype e t).
+    + apply skip_wenc; [assumption|lia|apply Hdepth; assumption].
+    + inversion Hwf; subst. unfold wtype.
+      match goal with H : shape_of _ _ = SStruct _ _ |- _ => rewrite H end. reflexivity.
+Qed.
+
+(** * TCompactProtocol: message header, TApplicationException, and the laws *)
+
+Local Notation P32 := 4294967296.
+Local Notation P64 := 18446744073709551616.
+
+Lemma c_varint32_any pb n rest : in_range 4 n ->
+  c_varint32 (pb, varint32 n ++ rest) = Ok (n, (pb, rest)).
+Proof.
+  intros H. apply (proj1 (in_range_4 _)) in H.
+  unfold c_varint32, varint32.
+  assert (Hm : 0 <= n mod P32 < P32) by (apply Z.mod_pos_bound; lia).
+  rewrite c_varint64_ok by lia. cbn [bind].
+  rewrite Z.mod_mod by lia.
+  unfold signed. change (256 ^ Z.of_nat 4) with P32. change (P32 / 2) with 2147483648.
+  destruct (Z_lt_le_dec n 0) as [Hneg|Hpos].
+  - assert (Hn : n mod P32 = n + P32) by (symmetry; apply Z.mod_unique with (q := -1); lia).
+    rewrite Hn. destruct (n + P32 <? 2147483648) eqn:E; [apply Z.ltb_lt in E; lia|].
+    do 2 f_equal. lia.
+  - rewrite Z.mod_small by lia.
+    destruct (n <? 2147483648) eqn:E; [reflexivity|apply Z.ltb_ge in E; lia].
+Qed.
+
+Lemma cmsg_begin_roundtrip nm typ seq rest :
+  0 <= typ < 8 -> zlen nm < 2147483648 -> in_range 4 seq ->
+  cmsg_begin_dec (cmsg_begin_enc nm typ seq ++ rest) = Ok (nm, typ, seq, rest).
+Proof.
+  intros Ht Hn Hs. unfold cmsg_begin_dec, cmsg_begin_enc.
+  rewrite (Z.mod_small typ 8) by lia.
+  cbn [app c_byte snd fst bind]. cbn [Z.eqb Pos.eqb negb].
+  replace ((1 + 32 * typ) mod 32) with 1 by lia. cbn [Z.eqb Pos.eqb negb].
+  rewrite <- !app_assoc. rewrite c_varint32_any by assumption. cbn [bind].
+  rewrite c_blob_ok by assumption. cbn [bind snd].
+  replace ((1 + 32 * typ) / 32 mod 8) with typ by lia. reflexivity.
+Qed.
+
+Lemma in_range_2_lit z : -32768 <= z < 32768 -> in_range 2 z.
+Proof. intros H. apply in_range_2. exact H. Qed.
+
+Lemma cappexc_enc_nonempty kind msg : msg <> [] ->
+  cappexc_enc kind msg =
+  (cfield_hdr 0 1 8 ++ varint32 (zlen msg) ++ msg) ++ cfield_hdr 1 2 5 ++ varint32 (zigzag32 kind) ++ [0].
+Proof. intros H. destruct msg; [contradiction|reflexivity]. Qed.
+
+Lemma cappexc_roundtrip kind text rest fuel :
+  (3 <= fuel)%nat -> zlen text < 2147483648 -> in_range 4 kind ->
+  cappexc_dec fuel (cappexc_enc kind text ++ rest) = Ok (text, kind, rest).
+Proof.
+  intros Hf Ht Hk. unfold cappexc_dec.
+  destruct fuel as [|[|[|f]]]; try lia.
+  assert (Htail : forall last msg0 k0 g, last = 0 \/ last = 1 ->
+             cappexc_dec_from (S (S g)) last (None, (cfield_hdr last 2 5 ++ varint32 (zigzag32 kind) ++ [0]) ++ rest) msg0 k0
+             = Ok (msg0, kind, (None, rest))).
+  { intros last msg0 k0 g Hl. cbn [cappexc_dec_from].
+    rewrite <- !app_assoc.
+    rewrite (c_field_hdr_ok None last 2 5 8); [|destruct Hl; subst; apply in_range_2_lit; lia|apply in_range_2_lit; lia|lia|reflexivity].
+    cbn [bind]. change ((5 =? 1) || (5 =? 2)) with false. cbv iota.
+    change (8 =? 0) with false. cbv iota.
+    change ((2 =? 1) && (8 =? 11)) with false. change ((2 =? 2) && (8 =? 8)) with true. cbv iota.
+    rewrite c_i32_ok by assumption. cbn [bind].
+    change ([0] ++ rest) with (0 :: rest). unfold c_field_hdr at 1. unfold c_byte. cbn [snd fst bind].
+    change (0 mod 16 =? 0) with true. cbv iota. reflexivity. }
+  destruct text as [|c text].
+  - unfold cappexc_enc. cbn [app]. pose proof (Htail 0 [] 0 (S f) (or_introl eq_refl)) as H0.
+    match goal with |- bind ?X _ = _ => replace X with (Ok (@nil Z, kind, (@None bool, rest))) by (symmetry; exact H0) end.
+    reflexivity.
+  - fold (cappexc_enc kind (c :: text)).
+    rewrite (cappexc_enc_nonempty kind (c :: text)) by discriminate.
+    set (msg := c :: text) in *.
+    cbn [cappexc_dec_from]. rewrite <- !app_assoc.
+    rewrite (c_field_hdr_ok None 0 1 8 11); [|apply in_range_2_lit; lia|apply in_range_2_lit; lia|lia|reflexivity].
+    cbn [bind]. change ((8 =? 1) || (8 =? 2)) with false. cbv iota.
+    change (11 =? 0) with false. cbv iota.
+    change ((1 =? 1) && (11 =? 11)) with true. cbv iota.
+    rewrite c_blob_ok by assumption. cbn [bind].
+    pose proof (Htail 1 msg 0 f (or_intror eq_refl)) as H1. rewrite <- !app_assoc in H1.
+    match goal with |- bind ?X _ = _ => replace X with (Ok (msg, kind, (@None bool, rest))) by (symmetry; exact H1) end.
+    reflexivity.
+Qed.
+
+Theorem compact_codec_ok : codec_ok compact_codec.
+Proof.
+  constructor; cbn [compact_codec cd_msg_enc cd_msg_dec cd_exc_enc cd_exc_dec cd_write cd_read cd_skip_struct].
+  - exact cmsg_begin_roundtrip.
+  - exact cappexc_roundtrip.
+  - intros e t v rest. apply compact_write_read_roundtrip.
+  - intros e t args Hwf Hdepth.
+    destruct (go_struct_roundtrip e t (VStruct args) Hwf) as (w & Htw & Hwwt & _).
+    exists (cenc e t w), (wsize w). split; [unfold gcwrite; rewrite Htw; reflexivity|].
+    intros fuel Hf. unfold cskip_default. rewrite <- (app_nil_r (cenc e t w)).
+    replace 12 with (wtype e t).
+    + rewrite compact_skip_exact; [reflexivity|assumption|lia|apply Hdepth; assumption].
+    + inversion Hwf; subst. unfold wtype.
+      match goal with H : shape_of _ _ = SStruct _ _ |- _ => rewrite H end. reflexivity.
 Qed.
